@@ -8,7 +8,7 @@ PROPERTY = 'C11'
 
 OPS = ['connect /', 'connect /a', 'connect refused', 'enter room', 'event', 'event+ack', 'binary header only',
        'binary header + 1 of 2', 'emit with callback (unanswered)', 'emit with callback (answered)', 'malformed',
-       'client DISCONNECT', 'server disconnect']
+       'client DISCONNECT', 'server disconnect', 'server disconnect, transport lost during the handler']
 
 
 class Boom(RuntimeError):
@@ -62,6 +62,8 @@ def h_inner(t, part):
                 raise real_asyncio.CancelledError()
             raise Boom(kind)
 
+    meanwhile = {'lose': False}
+
     def mk(kind, ret=None, legacy=False):
         if asyncio_ and legacy:
             async def f(sid):                 # legacy disconnect handler: no reason argument
@@ -69,10 +71,19 @@ def h_inner(t, part):
                 return ret
         elif asyncio_:
             async def f(sid, *a):
+                if kind == 'disconnect' and meanwhile['lose']:
+                    # the client closes its transport on receiving DISCONNECT: the loss is processed to the end while this
+                    # handler is suspended
+                    meanwhile['lose'] = False
+                    await w.eio.lose('e0')
                 maybe_raise(kind)
                 return ret
         else:
             def f(sid, *a):
+                if kind == 'disconnect' and meanwhile['lose']:
+                    # (threaded server: the transport's thread runs to the end while this handler is pre-empted)
+                    meanwhile['lose'] = False
+                    w.eio.lose('e0')
                 maybe_raise(kind)
                 return ret
         return f
@@ -149,11 +160,13 @@ def h_inner(t, part):
         elif op == 'client DISCONNECT':
             w.send('e0', w.P(packet.DISCONNECT, namespace=cur))
             live[cur] = None
-        elif op == 'server disconnect':
+        elif op in ('server disconnect', 'server disconnect, transport lost during the handler'):
+            meanwhile['lose'] = op != 'server disconnect' and not part.get('legacy')
             try:
                 w.call(w.s.disconnect(live[cur], namespace=cur))
             except Boom:
                 pass        # the application's own handler raised into the application's call
+            meanwhile['lose'] = False
             live[cur] = None
     # the transport ends
     w.lose('e0')
@@ -206,7 +219,7 @@ META = dict(
                 '(which application handler invocation raises), ended by loss of the transport; afterwards every '
                 'server/manager container is inspected for the transport id and all session ids it ever had, and '
                 'after the bystander leaves the whole state must equal that of the freshly built server.',
-    bounds={'quick': '3 operations from %r on one transport (namespaces /, /a, refusing /r) + transport loss; at most '
+    bounds={'quick': '3 operations from %r (the last one: the loss is processed entirely while the disconnect handler of a server-initiated disconnect is suspended) on one transport (namespaces /, /a, refusing /r) + transport loss; at most '
                      'one raising handler invocation among the first 4 (symbolic index); always_connect in {F,T}; asyncio also with handlers ending in CancelledError and legacy one-argument disconnect handlers (2 operations); a '
                      'bystander in a room on /' % (OPS,),
             'thorough': 'same with 4 operations'},
